@@ -118,6 +118,8 @@ struct Collector {
     max_chunk: usize,
     /// overflow mode: the first request is held until the client gives up
     stall_first: std::sync::atomic::AtomicBool,
+    /// signals one of whose connections went dark (a failure the request log does not show)
+    wedged: Mutex<BTreeSet<Signal>>,
 }
 
 impl Collector {
@@ -338,11 +340,34 @@ async fn grpc_conn(stream: SimStream, col: Arc<Collector>, host: HostCfg, conn: 
             return;
         }
     };
+    // a connection-scoped fault: after it has served a request or two the connection goes dark - it stays open, but
+    // nothing on it is ever answered again (a wedged collector process, a silently dropped NAT / load-balancer flow)
+    // while fresh connections to the same collector are served. A per-request stall would not show this on HTTP/2:
+    // the retry would arrive as a new stream and be answered
+    let wedge_at: Option<u32> = {
+        let mut left = col.faults_left.lock().unwrap();
+        if *left > 0 && col.sched.lock().choices.chance(1, 8) {
+            *left -= 1;
+            Some(2 + col.sched.lock().choices.choose(2))
+        } else {
+            None
+        }
+    };
+    let mut served = 0u32;
     loop {
         match h2conn.accept().await {
             None => return,
             Some(Err(_)) => return,
             Some(Ok((req, respond))) => {
+                served += 1;
+                if wedge_at == Some(served) {
+                    *col.fired.lock().unwrap().entry("connection_wedged").or_insert(0) += 1;
+                    col.wedged.lock().unwrap().insert(host.signal);
+                    col.note(format!("conn {conn}: goes dark at its request #{served} (stays open, answers nothing any more)"));
+                    let _hold = (req, respond);
+                    sim_sleep(3_600_000).await;
+                    return;
+                }
                 let decision = col.decide(host.signal);
                 let path = req.uri().path().to_string();
                 col.note(format!("conn {conn}: gRPC {path} -> {decision:?}"));
@@ -968,6 +993,7 @@ impl Engine for OtlpSim {
             fired: Mutex::new(BTreeMap::new()),
             max_chunk,
             stall_first: std::sync::atomic::AtomicBool::new(overflow),
+            wedged: Mutex::new(BTreeSet::new()),
         });
         {
             let col2 = col.clone();
@@ -1178,7 +1204,9 @@ impl Engine for OtlpSim {
                     }
                 }
             }
-            let any_failed: BTreeSet<Signal> = log.iter().filter(|r| !r.acked).map(|r| r.signal).collect();
+            let mut any_failed: BTreeSet<Signal> = log.iter().filter(|r| !r.acked).map(|r| r.signal).collect();
+            // a connection that went dark failed requests the collector never got to log
+            any_failed.extend(col.wedged.lock().unwrap().iter().copied());
             let refused_any = col.refused.load(Ordering::SeqCst) > 0 || fired.contains_key("connect_refused");
             let emitted: Vec<&Ev> = cl.emitted.iter().map(|(i, _)| &events[*i]).collect();
             let last_flush_ok = cl.flushes.last().map(|f| f.4 && f.3 == 900_000).unwrap_or(false);
